@@ -152,7 +152,14 @@ Section C04.
 
   (* ... and MODIFIED MESSAGES: a tag computed for m that verifies for another message m'
      exhibits a collision of the standard MAC truncated to tag >= 10 bytes on two DIFFERENT
-     MAC inputs (the messages, each with the 0x00 suffix when the key is LEGACY) *)
+     MAC inputs (the messages, each with the 0x00 suffix when the key is LEGACY).
+     (Checked against algebraic identities of the constructions: the SAME key bytes are on both sides
+     of the event here and in the two theorems that follow, so HMAC key normalisation (zero padding,
+     hashing of long keys) cannot make it free; on the message side neither HMAC nor AES-CMAC has an identity that
+     holds for every hash / block cipher (a CMAC collision between a padded and a complete last block
+     needs the key-dependent subkeys K1, K2); the one message-side identity of the stack, LEGACY m versus m || 0x00 under another
+     variant, is NOT counted as a collision: it is the `equal MAC inputs` disjunct of
+     C04_cross_object_reduction.  The event is refutable: C04_reduction_event_refutable.) *)
   Theorem C04_modified_message_reduction :
     forall p a key tag v id P, build Hash AES p a key tag v id = Built P ->
     forall m m', m <> m' -> pverify P (pcompute P m) m' = true ->
@@ -320,4 +327,19 @@ Example C04_reduction_hypotheses_met :
 Proof.
   cbv zeta. eexists. split; [vm_compute; reflexivity|].
   split; [discriminate|]. split; [vm_compute; reflexivity|]. split; [discriminate|]. vm_compute. reflexivity.
+Qed.
+
+(* the collision event of the reductions is refutable (no identity makes it free): with the identity
+   block cipher AES-CMAC of a short message is its 10* padding, so two different one-byte messages
+   have different truncated tags, and the modified message is rejected *)
+Example C04_reduction_event_refutable :
+  let H := fun h (_ : bytes) => zeros (digest_size h) in
+  let A := fun (_ b : bytes) => b in
+  (forall k b, length b = 16%nat -> length (A k b) = 16%nat) /\ (forall k, wfb (A k (zeros 16))) /\
+  firstn 10 (std_mac H A ACmac (zeros 32) [1]) <> firstn 10 (std_mac H A ACmac (zeros 32) [2]) /\
+  exists P, build H A PKey ACmac (zeros 32) 10 VTink 7 = Built P /\ pverify P (pcompute P [1]) [2] = false.
+Proof.
+  cbv zeta. split; [auto|]. split; [intros k; apply zeros_wf|].
+  split; [intros E; vm_compute in E; discriminate|].
+  eexists. split; [vm_compute; reflexivity|]. vm_compute. reflexivity.
 Qed.
